@@ -55,6 +55,8 @@ InsideTrim(op, p) == \A i \in Axes : TrimX(op, p)[i] >= U /\ TrimX(op, p)[i] <= 
 \* reference points: squared lattice distance to a point of the same tomogram
 D2(a, b) == (a[1] - b[1]) * (a[1] - b[1]) + (a[2] - b[2]) * (a[2] - b[2]) + (a[3] - b[3]) * (a[3] - b[3])
 NearPoint(op, p) == \E q \in op.pts : q.t = p.t /\ D2(Cpl(p), q.pos) <= op.r * op.r
+\* a particle exactly on the radius of a point (r and all coordinates are lattice values, so d = r is exact in
+\* binary floating point as well): it is within the radius and is removed
 TiePoint(op, p) == \E q \in op.pts : q.t = p.t /\ D2(Cpl(p), q.pos) = op.r * op.r
 
 \* mask: voxel index of a position that is inside the volume under both index conventions (see MaskAmbiguous)
@@ -81,7 +83,7 @@ After(c, p) == IF c.op.name = "trim" THEN [p EXCEPT !.x = TrimX(c.op, p)] ELSE p
 
 Ambiguous(c) == CASE c.op.name = "oob" -> c.op.kind = "whole" /\ c.op.box % 2 = 1     \* "the box of the given size"
                   [] c.op.name = "trim" -> FALSE
-                  [] c.op.name = "points" -> \E k \in DOMAIN c.ps : TiePoint(c.op, c.ps[k])
+                  [] c.op.name = "points" -> FALSE    \* on the lattice a tie (distance = r) is exact: "within the radius" removes it
                   [] c.op.name = "mask" -> \E k \in DOMAIN c.ps : MaskAmbiguous(c.op, c.ps[k])
 
 Result(c) == LET kept == SelectSeq(c.ps, LAMBDA p : Survives(c, p))
@@ -161,5 +163,7 @@ TypeOK == nc \in 0..Len(cs.ops) /\ (~done => res.ps = cs.ps)
 \* emission: one record per call
 PJ(ps) == [k \in DOMAIN ps |-> <<ps[k].id, ps[k].t, ps[k].x[1], ps[k].x[2], ps[k].x[3], ps[k].s[1], ps[k].s[2], ps[k].s[3]>>]
 Emit == \/ ~done
-        \/ PrintT(<<"RES", ToJson([id |-> cs.id, step |-> nc, ps |-> PJ(res.ps), status |-> res.status, amb |-> res.amb])>>)
+        \/ PrintT(<<"RES", ToJson([id |-> cs.id, step |-> nc, ps |-> PJ(res.ps), status |-> res.status, amb |-> res.amb,
+                                   ties |-> IF Case.op.name = "points"
+                                            THEN Cardinality({ k \in DOMAIN prev : TiePoint(Case.op, prev[k]) }) ELSE 0])>>)
 =============================================================================
